@@ -1,12 +1,14 @@
-import DFV.Lemmas.C13Forms
+import DFV.Lemmas.C13Reject
 import DFV.Model.C13
 /-!
 # C13 — geometric invariants and in-place == copy after any transformation sequence
 
-Theorems about the transformation model `DFV/Model/Transform.lean` (region level): the
-copying form goes through the constructor, the in-place form assigns directly; that
-the two agree, and that the invariant survives every history, are proved here, for all
-regions (any dimension), all argument values and all finite histories.
+Theorems about the transformation model `DFV/Model/Transform.lean` at region, mesh and field
+level: the copying form goes through the constructors (and the `bc` and subregion setters), the
+in-place form assigns directly; that the two agree — periodic boundary conditions included —, that
+the invariants survive every history, and that a step is rejected exactly for the malformed-argument
+classes (in both forms, producing no state) are proved here, for all regions / meshes / fields (any
+dimension), all argument values and all finite histories.
 -/
 namespace DFV.C13
 open DFV DFV.T
@@ -471,7 +473,8 @@ is rejected when it is not; (2) if the copying form accepts, the receiver is unt
 in-place form accepts too and the returned mesh is the in-place state (bc lower-cased); (3) hence
 a step rejected in place is rejected by the copying form as well.  The constructor's tolerant
 re-validation of the subregions never rejects here, because the images fit exactly
-(`DFV.C14.stepM_subInv`, `set_accepts_exact`). -/
+(`DFV.C14.stepM_subInv`, `set_accepts_exact`).  This form needs NO hypothesis on `bc`; for well-formed
+`bc` the conditional disappears: `inplace_eq_copy_mesh_complete`. -/
 theorem inplace_eq_copy_mesh (m : Mesh) (hm : m.Inv) (hs : SubInv m) (op : Op) :
     (∀ T1 T2, stepM m (op.withInplace true) = .ok (T1, T2) →
         T1 = T2 ∧ stepM m (op.withInplace false) =
@@ -489,22 +492,53 @@ theorem inplace_eq_copy_mesh (m : Mesh) (hm : m.Inv) (hs : SubInv m) (op : Op) :
     obtain ⟨_, T, hT, _⟩ := stepM_copy_to_inplace m hm hs op recv ret hF
     rw [he] at hT; cases hT
 
-/-- Mesh level master lemma for the non-periodic boundary conditions (`""`, `neumann`,
-`dirichlet`): for ANY step either both forms accept and end in the same state `T` (satisfying the
-mesh invariant and `SubInv`, same `bc`; in-place returns the receiver, copying leaves it
-untouched), or both forms reject — "rejected in both forms on exactly the same inputs". -/
-theorem step_forms_mesh (m : Mesh) (hm : m.Inv) (hs : SubInv m) (hbc : PlainBc m.bc) (op : Op) :
-    (∃ T : Mesh, T.Inv ∧ SubInv T ∧ PlainBc T.bc ∧ stepM m (op.withInplace true) = .ok (T, T) ∧
+/-- Mesh level master lemma — **periodic boundary conditions included**.  For a mesh satisfying the
+mesh invariant, `SubInv` and `BcWf` (what the `bc` setter guarantees: lower-cased, letters distinct
+dimension names; for periodic `bc` the single-character dimension names are lower-case — every
+non-periodic `bc` qualifies, `bc_wellformed_of_nonperiodic`) and ANY step: either both forms accept
+and end in the same state `T` (satisfying the three invariants again; a non-periodic `bc` is
+unchanged; in-place returns the receiver, copying leaves it untouched), or both forms reject —
+"rejected in both forms on exactly the same inputs".  The letter swap of a quarter turn keeps the
+`bc` check and lower-casing (`DFV.C12.rotBc_keeps_bcOk`, `rotBc_lowercase`), so the constructor of
+the copying form never rejects what the in-place form assigned. -/
+theorem step_forms_mesh (m : Mesh) (hm : m.Inv) (hs : SubInv m) (hbc : BcWf m) (op : Op) :
+    (∃ T : Mesh, T.Inv ∧ SubInv T ∧ BcWf T ∧ (PlainBc m.bc → T.bc = m.bc) ∧ stepM m (op.withInplace true) = .ok (T, T) ∧
         stepM m (op.withInplace false) = .ok (m, T)) ∨
-    ((∃ e, stepM m (op.withInplace true) = .error e) ∧ (∃ e, stepM m (op.withInplace false) = .error e)) :=
-  stepM_forms_plain m hm hs hbc op
+    ((∃ e, stepM m (op.withInplace true) = .error e) ∧ (∃ e, stepM m (op.withInplace false) = .error e)) := by
+  rcases stepM_forms_bc m hm hs hbc op with ⟨T, h1, h2, h3, h4, _, h5, h6⟩ | h
+  · exact Or.inl ⟨T, h1, h2, h3, h4, h5, h6⟩
+  · exact Or.inr h
+
+/-- every non-periodic boundary condition (`""`, `neumann`, `dirichlet`) is well-formed, whatever
+the dimension names — so the theorems stated with `BcWf` cover all of them -/
+theorem bc_wellformed_of_nonperiodic (m : Mesh) (h : PlainBc m.bc) : BcWf m := bcWf_of_plain m h
+
+/-- every accepted mesh step (either form) keeps the boundary condition well-formed, and leaves a
+non-periodic one unchanged -/
+theorem step_keeps_bc_wellformed (m : Mesh) (hm : m.Inv) (hs : SubInv m) (hbc : BcWf m) (op : Op) (recv ret : Mesh)
+    (h : stepM m op = .ok (recv, ret)) : BcWf recv ∧ BcWf ret ∧ (PlainBc m.bc → ret.bc = m.bc) :=
+  stepM_bcWf m hm hs hbc op recv ret h
+
+/-- … hence after ANY finite history: mesh invariant, `SubInv` and well-formed `bc` together -/
+theorem reachable_bc_wellformed (m : Mesh) (hm : m.Inv) (hs : SubInv m) (hbc : BcWf m) (ops : List Op) :
+    (runM m ops).Inv ∧ SubInv (runM m ops) ∧ BcWf (runM m ops) := by
+  induction ops generalizing m with
+  | nil => exact ⟨hm, hs, hbc⟩
+  | cons op ops ih =>
+    simp only [runM]
+    cases h : stepM m op with
+    | error e => exact ih m hm hs hbc
+    | ok p =>
+      obtain ⟨recv, ret⟩ := p
+      exact ih ret (stepM_keeps m hm op recv ret h).2.1 (stepM_subInv' m hm hs op recv ret h).2.1
+        (stepM_bcWf m hm hs hbc op recv ret h).2.1
 
 /-- Two mesh histories that differ only in the in-place flags of their steps end with equal meshes
-(region, counts, bc, subregions). -/
-theorem history_forms_agree_mesh (m : Mesh) (hm : m.Inv) (hs : SubInv m) (hbc : PlainBc m.bc)
+(region, counts, bc, subregions) — periodic boundary conditions included. -/
+theorem history_forms_agree_mesh (m : Mesh) (hm : m.Inv) (hs : SubInv m) (hbc : BcWf m)
     (ops : List Op) (flags : List Bool) (hl : flags.length = ops.length) :
     runM m (List.zipWith Op.withInplace ops flags) = runM m ops :=
-  runM_forms_agree m hm hs hbc ops flags hl
+  runM_forms_agree_bc m hm hs hbc ops flags hl
 
 /-! ## field level: histories, in-place == copying -/
 
@@ -529,21 +563,21 @@ theorem rotate90F_forms (f : Fld) (a1 a2 : String) (k : Int) (ref : Option (List
     rotate90F f a1 a2 k ref b' = .ok (if b' then g else f, g) ∧ x = if b then g else f :=
   rotate90F_flag f a1 a2 k ref b b' x g h
 
-/-- Field level master lemma: for a field satisfying `FInv` and ANY step, either both forms accept
-and end in the same state `T` (again satisfying `FInv`; the in-place form returns the receiver,
-the copying form leaves it untouched), or both forms reject. -/
+/-- Field level master lemma: for a field satisfying `FInv` (shape invariant, `SubInv` and `BcWf` of
+its mesh — periodic boundary conditions included) and ANY step, either both forms accept and end in
+the same state `T` (again satisfying `FInv`; the in-place form returns the receiver, the copying
+form leaves it untouched), or both forms reject. -/
 theorem stepF_forms (f : Fld) (hf : FInv f) (op : Op) :
     (∃ T : Fld, FInv T ∧ stepF f (op.withInplace true) = .ok (T, T) ∧ stepF f (op.withInplace false) = .ok (f, T)) ∨
     ((∃ e, stepF f (op.withInplace true) = .error e) ∧ (∃ e, stepF f (op.withInplace false) = .error e)) := by
   obtain ⟨hfi, hs, hbc⟩ := hf
-  have hmesh : ∀ (o : Op) (x : Mesh) (T : Mesh), stepM f.mesh o = .ok (x, T) → SubInv T ∧ PlainBc T.bc := by
+  have hmesh : ∀ (o : Op) (x : Mesh) (T : Mesh), stepM f.mesh o = .ok (x, T) → SubInv T ∧ BcWf T := by
     intro o x T h
-    refine ⟨(stepM_subInv' f.mesh hfi.1 hs o x T h).2.1, ?_⟩
-    rw [(stepM_plainBc f.mesh o x T hbc h).1]; exact hbc
+    exact ⟨(stepM_subInv' f.mesh hfi.1 hs o x T h).2.1, (stepM_bcWf f.mesh hfi.1 hs hbc o x T h).2.1⟩
   cases op with
   | translate v i =>
     simp only [Op.withInplace, stepF]
-    rcases stepM_forms_plain f.mesh hfi.1 hs hbc (.translate v i) with ⟨T, h1, h2, h3, h4, h5⟩ | ⟨⟨e1, h4⟩, ⟨e2, h5⟩⟩
+    rcases stepM_forms_bc f.mesh hfi.1 hs hbc (.translate v i) with ⟨T, h1, h2, h3, _, _, h4, h5⟩ | ⟨⟨e1, h4⟩, ⟨e2, h5⟩⟩
     · left
       simp only [Op.withInplace] at h4 h5
       refine ⟨{ f with mesh := T }, ⟨?_, h2, h3⟩, by rw [h4]; simp, by rw [h5]; simp⟩
@@ -553,7 +587,7 @@ theorem stepF_forms (f : Fld) (hf : FInv f) (op : Op) :
       exact ⟨⟨e1, by rw [h4]⟩, ⟨e2, by rw [h5]⟩⟩
   | scale s ref i =>
     simp only [Op.withInplace, stepF]
-    rcases stepM_forms_plain f.mesh hfi.1 hs hbc (.scale s ref i) with ⟨T, h1, h2, h3, h4, h5⟩ | ⟨⟨e1, h4⟩, ⟨e2, h5⟩⟩
+    rcases stepM_forms_bc f.mesh hfi.1 hs hbc (.scale s ref i) with ⟨T, h1, h2, h3, _, _, h4, h5⟩ | ⟨⟨e1, h4⟩, ⟨e2, h5⟩⟩
     · left
       simp only [Op.withInplace] at h4 h5
       refine ⟨{ f with mesh := T }, ⟨?_, h2, h3⟩, by rw [h4]; simp, by rw [h5]; simp⟩
@@ -598,7 +632,7 @@ theorem stepF_forms (f : Fld) (hf : FInv f) (op : Op) :
         rw [hT] at g1; cases g1
 
 /-- Two field histories that differ only in the in-place flags of their steps end with equal fields
-(mesh, values, validity, labels). -/
+(mesh, values, validity, labels) — periodic boundary conditions included. -/
 theorem history_forms_agree_field (f : Fld) (hf : FInv f) (ops : List Op) (flags : List Bool)
     (hl : flags.length = ops.length) :
     runF f (List.zipWith Op.withInplace ops flags) = runF f ops := by
@@ -638,14 +672,126 @@ theorem history_forms_agree_field (f : Fld) (hf : FInv f) (ops : List Op) (flags
         obtain ⟨y, k2⟩ := k2
         rw [k1, k2]; exact ih f hf bs hl'
 
+/-- **In-place == copying at mesh level, complete** (periodic `bc` included): for a mesh satisfying
+the mesh invariant, `SubInv` and `BcWf`, whenever the in-place form accepts it returns the receiver
+itself in exactly the state the copying form returns, the copying form leaves the receiver
+untouched, and one form rejects iff the other does — the mesh-level mirror of `inplace_eq_copy`. -/
+theorem inplace_eq_copy_mesh_complete (m : Mesh) (hm : m.Inv) (hs : SubInv m) (hbc : BcWf m) (op : Op) :
+    (∀ recv ret, stepM m (op.withInplace true) = .ok (recv, ret) →
+        recv = ret ∧ stepM m (op.withInplace false) = .ok (m, ret)) ∧
+    (∀ recv ret, stepM m (op.withInplace false) = .ok (recv, ret) →
+        recv = m ∧ stepM m (op.withInplace true) = .ok (ret, ret)) ∧
+    ((∃ e, stepM m (op.withInplace true) = .error e) ↔ (∃ e, stepM m (op.withInplace false) = .error e)) := by
+  rcases stepM_forms_bc m hm hs hbc op with ⟨T, _, _, _, _, _, h1, h2⟩ | ⟨⟨e1, h1⟩, ⟨e2, h2⟩⟩
+  · refine ⟨?_, ?_, ?_⟩
+    · intro recv ret h; rw [h1] at h; injection h with h; injection h with ha hb
+      subst ha; subst hb; exact ⟨rfl, h2⟩
+    · intro recv ret h; rw [h2] at h; injection h with h; injection h with ha hb
+      subst ha; subst hb; exact ⟨rfl, h1⟩
+    · constructor
+      · rintro ⟨e, he⟩; rw [h1] at he; cases he
+      · rintro ⟨e, he⟩; rw [h2] at he; cases he
+  · refine ⟨?_, ?_, ?_⟩
+    · intro recv ret h; rw [h1] at h; cases h
+    · intro recv ret h; rw [h2] at h; cases h
+    · exact ⟨fun _ => ⟨e2, h2⟩, fun _ => ⟨e1, h1⟩⟩
+
+/-- **In-place == copying at field level, complete** (periodic `bc` included). -/
+theorem inplace_eq_copy_field (f : Fld) (hf : FInv f) (op : Op) :
+    (∀ recv ret, stepF f (op.withInplace true) = .ok (recv, ret) →
+        recv = ret ∧ stepF f (op.withInplace false) = .ok (f, ret)) ∧
+    (∀ recv ret, stepF f (op.withInplace false) = .ok (recv, ret) →
+        recv = f ∧ stepF f (op.withInplace true) = .ok (ret, ret)) ∧
+    ((∃ e, stepF f (op.withInplace true) = .error e) ↔ (∃ e, stepF f (op.withInplace false) = .error e)) := by
+  rcases stepF_forms f hf op with ⟨T, _, h1, h2⟩ | ⟨⟨e1, h1⟩, ⟨e2, h2⟩⟩
+  · refine ⟨?_, ?_, ?_⟩
+    · intro recv ret h; rw [h1] at h; injection h with h; injection h with ha hb
+      subst ha; subst hb; exact ⟨rfl, h2⟩
+    · intro recv ret h; rw [h2] at h; injection h with h; injection h with ha hb
+      subst ha; subst hb; exact ⟨rfl, h1⟩
+    · constructor
+      · rintro ⟨e, he⟩; rw [h1] at he; cases he
+      · rintro ⟨e, he⟩; rw [h2] at he; cases he
+  · refine ⟨?_, ?_, ?_⟩
+    · intro recv ret h; rw [h1] at h; cases h
+    · intro recv ret h; rw [h2] at h; cases h
+    · exact ⟨fun _ => ⟨e2, h2⟩, fun _ => ⟨e1, h1⟩⟩
+
+/-! ## rejected steps: exactly the malformed-argument classes, in both forms -/
+
+/-- **A malformed call is rejected in both forms and produces no new state** — on regions, meshes
+and fields alike, with NO hypothesis on the object.  The classes (`Malformed`): a translation
+vector of the wrong length; a factor list of the wrong length, a reference point of the wrong
+length, a zero factor (scalar or any entry of the list); equal axes, a reference point of the wrong
+length, an unknown axis name (first or second); and for fields additionally (`MalformedF`) a quarter
+turn of a vector field whose component-to-axis mapping misses one of the two axes.  The model's
+step returns `Except`: an error carries no receiver and no result. -/
+theorem malformed_rejected_both_forms (r : Region) (m : Mesh) (f : Fld) (op : Op) (b : Bool) :
+    (Malformed r op → ∃ e, stepR r (op.withInplace b) = .error e) ∧
+    (Malformed m.region op → ∃ e, stepM m (op.withInplace b) = .error e) ∧
+    (MalformedF f op → ∃ e, stepF f (op.withInplace b) = .error e) :=
+  ⟨fun h => stepR_malformed r _ ((malformed_withInplace r op b).mpr h),
+   fun h => stepM_malformed m _ ((malformed_withInplace m.region op b).mpr h),
+   fun h => stepF_malformed f _ ((malformedF_withInplace f op b).mpr h)⟩
+
+/-- **Region: a step is rejected exactly for the malformed-argument classes** (either form): nothing
+else is ever refused, and the flag plays no role. -/
+theorem rejected_iff_malformed_region (r : Region) (hr : r.Inv) (op : Op) (b : Bool) :
+    (∃ e, stepR r (op.withInplace b) = .error e) ↔ Malformed r op := by
+  rw [stepR_error_iff r hr, malformed_withInplace]
+
+/-- **Mesh: a step is rejected exactly for the malformed-argument classes** (either form; mesh
+invariant, `SubInv`, well-formed `bc`): neither the steps applied to the subregions, nor the `bc`
+letter swap, nor the constructor and subregion setter of the copying form ever add a rejection. -/
+theorem rejected_iff_malformed_mesh (m : Mesh) (hm : m.Inv) (hs : SubInv m) (hbc : BcWf m) (op : Op) (b : Bool) :
+    (∃ e, stepM m (op.withInplace b) = .error e) ↔ Malformed m.region op := by
+  rw [stepM_error_iff m hm hs hbc, malformed_withInplace]
+
+/-- **Field: a step is rejected exactly for the malformed-argument classes** (either form), the
+unmapped vector field included. -/
+theorem rejected_iff_malformed_field (f : Fld) (hf : FInv f) (op : Op) (b : Bool) :
+    (∃ e, stepF f (op.withInplace b) = .error e) ↔ MalformedF f op := by
+  rw [stepF_error_iff f hf, malformedF_withInplace]
+
+/-- **A rejected step leaves the object as it was**, in a history: following `op :: ops` from an
+object on which `op` is malformed is following `ops` from the unchanged object — region, mesh, field. -/
+theorem rejected_step_skipped (r : Region) (m : Mesh) (f : Fld) (op : Op) (ops : List Op) :
+    (Malformed r op → runR r (op :: ops) = runR r ops) ∧
+    (Malformed m.region op → runM m (op :: ops) = runM m ops) ∧
+    (MalformedF f op → runF f (op :: ops) = runF f ops) := by
+  refine ⟨fun h => ?_, fun h => ?_, fun h => ?_⟩
+  · obtain ⟨e, he⟩ := stepR_malformed r op h
+    simp only [runR, he]
+  · obtain ⟨e, he⟩ := stepM_malformed m op h
+    simp only [runM, he]
+  · obtain ⟨e, he⟩ := stepF_malformed f op h
+    simp only [runF, he]
+
 /-- non-vacuity of the mesh- and field-level theorems: `exP` (3-d, anisotropic, two touching
-subregions, default bc) satisfies mesh invariant, `SubInv` and `PlainBc`; the field `exF` on it
-satisfies `FInv`; the history `exOps` (negative-factor in-place scale about a far point, copying odd
-quarter turn, in-place translation) is accepted step by step on both and permutes the counts. -/
-example : exP.Inv ∧ SubInv exP ∧ PlainBc exP.bc := ⟨exP_inv, exP_subInv, Or.inl rfl⟩
-example : FInv exF := ⟨exF_inv, exP_subInv, Or.inl rfl⟩
+subregions, default bc) and `exM` (the same, PERIODIC in x) satisfy mesh invariant, `SubInv` and
+`BcWf`; the fields `exF` / `exFM` on them satisfy `FInv`; the history `exOps` (negative-factor in-place
+scale about a far point, copying odd quarter turn, in-place translation) is accepted step by step,
+permutes the counts and moves the periodic direction from x to y. -/
+example : exP.Inv ∧ SubInv exP ∧ BcWf exP := ⟨exP_inv, exP_subInv, bcWf_of_plain _ (Or.inl rfl)⟩
+example : exM.Inv ∧ SubInv exM ∧ BcWf exM ∧ ¬ PlainBc exM.bc :=
+  ⟨exM_inv, exM_subInv, bcWf_of_bcWfB exM (by decide +kernel), by unfold PlainBc; decide +kernel⟩
+example : FInv exF := ⟨exF_inv, exP_subInv, bcWf_of_plain _ (Or.inl rfl)⟩
+example : FInv { exF with mesh := exM } := ⟨⟨exM_inv, rfl, rfl⟩, exM_subInv, bcWf_of_bcWfB exM (by decide +kernel)⟩
 example : (runM exP exOps).n = [6, 4, 1] := by decide +kernel
+example : (runM exM exOps).n = [6, 4, 1] ∧ (runM exM exOps).bc = "y" := by decide +kernel
 example : (runF exF exOps).mesh.n = [6, 4, 1] ∧ (runF exF exOps).data.shape = [6, 4, 1] := by decide +kernel
+/-- non-vacuity of the rejection theorems: each malformed class has an instance on `exM` -/
+example : Malformed exM.region (.translate [1, 2] true) ∧ Malformed exM.region (.scale (.vec [1, 0, 2]) none false) ∧
+    Malformed exM.region (.scale (.scalar 2) (some [0, 0]) true) ∧ Malformed exM.region (.rotate90 "x" "x" 1 none true) ∧
+    Malformed exM.region (.rotate90 "x" "w" 1 none false) ∧ ¬ Malformed exM.region (.rotate90 "x" "y" 1 none false) := by
+  have hx : exM.region.dim2index "x" = .ok 0 := by decide +kernel
+  have hy : exM.region.dim2index "y" = .ok 1 := by decide +kernel
+  refine ⟨(by decide : [1, 2].length ≠ exM.region.ndim), Or.inr (Or.inr ⟨1, by decide, by decide +kernel⟩),
+    Or.inr (Or.inl (by decide)), Or.inl rfl, Or.inr (Or.inr (Or.inr ⟨.value, by decide +kernel⟩)), ?_⟩
+  simp only [Malformed, not_or, not_exists]
+  refine ⟨by decide, by decide +kernel, ?_, ?_⟩
+  · intro e he; rw [hx] at he; cases he
+  · intro e he; rw [hy] at he; cases he
 
 /-- non-vacuity: a concrete 3-d region satisfies the invariant, and a history mixing a
 negative-factor in-place scale about a far reference point, an odd quarter turn and a
